@@ -9,6 +9,7 @@ import (
 	"errors"
 	"fmt"
 	"sync"
+	"time"
 
 	cbor "github.com/fxamacker/cbor/v2"
 	"github.com/veraison/eat"
@@ -265,6 +266,20 @@ type LookalikeKeyClaims struct {
 	Profiles *string `cbor:"-75100,keyasint,omitempty" json:"profiles,omitempty"`
 }
 
+// ProfileDashClaims / ProfileEmptyKeyClaims: the only field named Profile is
+// bookkeeping that is NOT a CBOR claim (cbor:"-") or has a cbor tag without a
+// key; there is no field keyed 265 / -75000: not a registrable claims type.
+type ProfileDashClaims struct {
+	psatoken.IClaims
+	Profile string `cbor:"-" json:"profile"`
+	Extra   *int64 `cbor:"-75100,keyasint,omitempty" json:"extra,omitempty"`
+}
+
+type ProfileEmptyKeyClaims struct {
+	psatoken.IClaims
+	Profile string `cbor:",omitempty" json:"profile,omitempty"`
+}
+
 // dynProfile: a profile of a given shape under an arbitrary name.
 type dynProfile struct {
 	name  string
@@ -288,6 +303,10 @@ func (d dynProfile) GetClaims() psatoken.IClaims {
 		return &NoProfClaims{}
 	case "lookalike-keys":
 		return &LookalikeKeyClaims{}
+	case "profile-cbor-dash":
+		return &ProfileDashClaims{}
+	case "profile-cbor-empty-key":
+		return &ProfileEmptyKeyClaims{}
 	default:
 		return &NoJSONTagClaims{}
 	}
@@ -639,4 +658,53 @@ func (noSwP2Profile) GetClaims() psatoken.IClaims {
 		panic(err)
 	}
 	return &NoSwP2Claims{psatoken.P2Claims{Profile: &p, CanonicalProfile: NoSwP2Name}}
+}
+
+// ---- an extension whose tokens carry a NESTED token (a sub-module's
+// claims-set as a byte string) which its decoder decodes and checks with the
+// library's own dispatching decoder, after a short pause (I/O, logging ...) ----
+
+const NestingP2Name = "http://example.com/verif/nesting-on-p2"
+
+type NestingP2Claims struct {
+	psatoken.P2Claims
+	Inner    *[]byte          `cbor:"-75600,keyasint,omitempty" json:"inner,omitempty"`
+	InnerSet psatoken.IClaims `cbor:"-" json:"-"`
+}
+
+func (o NestingP2Claims) MarshalCBOR() ([]byte, error) {
+	return encoding.SerializeStructToCBOR(hem, &o)
+}
+func (o *NestingP2Claims) UnmarshalCBOR(data []byte) error {
+	if err := encoding.PopulateStructFromCBOR(hdm, data, o); err != nil {
+		return err
+	}
+	if o.Inner != nil {
+		time.Sleep(2 * time.Millisecond)
+		in, err := psatoken.DecodeClaimsFromCBOR(*o.Inner)
+		if err != nil {
+			return fmt.Errorf("nested token: %w", err)
+		}
+		o.InnerSet = in
+	}
+	return nil
+}
+func (o NestingP2Claims) MarshalJSON() ([]byte, error) { return encoding.SerializeStructToJSON(&o) }
+func (o *NestingP2Claims) UnmarshalJSON(data []byte) error {
+	return encoding.PopulateStructFromJSON(data, o)
+}
+
+type nestingP2Profile struct{}
+
+func (nestingP2Profile) GetName() string { return NestingP2Name }
+func (nestingP2Profile) GetClaims() psatoken.IClaims {
+	p := eat.Profile{}
+	if err := p.Set(NestingP2Name); err != nil {
+		panic(err)
+	}
+	return &NestingP2Claims{P2Claims: psatoken.P2Claims{
+		Profile:          &p,
+		SwComponents:     &psatoken.SwComponents[*psatoken.SwComponent]{},
+		CanonicalProfile: NestingP2Name,
+	}}
 }
